@@ -11,7 +11,6 @@ CLASH = ["beta", "gamma", "E", "I", "S", "N", "Q", "O", "zeta", "pi", "Ci", "Si"
 TWINS = {"beta": "beta_", "gamma": "gamma_", "E": "E_", "I": "I_"}
 STATES = ["V", "m", "h", "n", "x", "y", "Ca_i", "u", "w", "d", "f", "S", "N", "I", "Q"]
 UNITS = ["mV", "ms", "mM", "uA/cm^2", "1/ms", "mS/uF", "1", "A/F", "1/mV", "m^2", "mM/ms"]
-UNARY = ["exp", "log", "log10", "sqrt", "sin", "cos", "tan", "asin", "acos", "atan", "abs", "floor", "ceil"]
 
 
 class Var:
@@ -28,7 +27,7 @@ class Var:
 
 
 class Gen:
-    def __init__(self, seed, size=None):
+    def __init__(self, seed):
         self.rng = rng = random.Random(f"c15-mmt/{seed}")
         self.seed = seed
         # profile 0: everything; 1: model-wide unique, non-reserved names and a time variable called `time` (so that
@@ -41,7 +40,6 @@ class Gen:
         self.use_time = rng.random() < 0.35
         self.pace = rng.choice([None, None, "label", "plain"])
         self.depth = rng.choice([1, 2, 2, 3])
-        self.big = size
 
     # ---- literals / expressions ---------------------------------------------------------
     def num(self, positive=False, unit=True):
